@@ -1192,7 +1192,8 @@ def _argspace_exec(args):
                     o1 = o1.nulls_first() if c["n1"] == "first" else o1.nulls_last()
                     o2 = t.k2.descending() if c["d2"] else t.k2
                     o2 = o2.nulls_first() if c["n2"] == "first" else o2.nulls_last()
-                    r = (t >> mutate(k=2) >> arrange(pdt.C.k, o1, o2) >> select(t.rid, t.k1, t.k2)) if c.get("ck") else (t >> arrange(o1, o2))
+                    r = ((t >> arrange(pdt.lit(2), o1, o2)) if c.get("ck") == "lit"
+                         else (t >> mutate(k=2) >> arrange(pdt.C.k, o1, o2) >> select(t.rid, t.k1, t.k2)) if c.get("ck") == "col" else (t >> arrange(o1, o2)))
                     if c["take"]:
                         r = r >> slice_head(c["take"])
                     rec["out"] = (r >> export(pdt.Polars()))["rid"].to_list()
@@ -1262,6 +1263,7 @@ def _argspace_exec(args):
                     if not c.get("named", True) and bk == "polars":
                         lt, rt = pdt.Table(frames[("l", tuple(c["l"]))]), pdt.Table(frames[("r", tuple(c["r"]))])
                     on = ("k" if c["on"] == "str" else (lt.k == rt.k) if c["on"] == "eq" else (lt.k <= rt.k) if c["on"] == "le"
+                          else [lt.k == rt.k, lt.lid == lt.k] if c["on"] == "eqleft" else [lt.k == rt.k, rt.rid == rt.k] if c["on"] == "eqright"
                           else (lt.k == rt.k) & (lt.lid <= rt.rid))
                     fm = c.get("form", "and")
                     if fm == "list":
